@@ -77,9 +77,18 @@ func (c *Ctx) Case(idx int, desc string) bool {
 	if idx <= c.ResumeAfter {
 		return false
 	}
+	// cumulative statistics so far: if this case kills the process the
+	// orchestrator still knows what the attempt had covered
+	c.Rep.caseCalls++
+	if c.Rep.caseCalls%25 == 1 {
+		c.Rep.emit(line{T: "stat", Counters: c.Rep.counters, Evals: c.Rep.evals, Distinct: int64(len(c.Rep.hashes)), Samples: c.Rep.samples}, false)
+	}
 	c.Rep.Begin(fmt.Sprintf("#%d %s", idx, desc))
 	return true
 }
+
+// Restarted reports whether this shard is being re-run after a crash/hang.
+func (c *Ctx) Restarted() bool { return c.ResumeAfter >= 0 }
 
 func (c *Ctx) Thorough() bool { return c.Tier == "thorough" }
 
@@ -103,6 +112,7 @@ type Rep struct {
 	hashes   map[uint64]struct{}
 	violKeys map[string]int
 	maxPerKey int
+	caseCalls int
 }
 
 type line struct {
